@@ -116,7 +116,14 @@ func init() {
 				var servers []*RefServer
 				// every second set of three rounds authenticates (a multi-step mechanism: one dialogue per dial)
 				authType := []string{"", "LOGIN-NOENC", "", "SCRAM-SHA-256", "", "CRAM-MD5"}[(round/3)%6]
+				// per-call connections, every other time: the port of the TLS policy is unreachable, its fallback
+				// port works (every dial fails once and then succeeds, on every goroutine)
+				fallback := mode == 1 && (round/3)%2 == 1
 				dial := func(ctx context.Context, network, address string) (net.Conn, error) {
+					if fallback && !strings.HasSuffix(address, ":25") {
+						time.Sleep(time.Duration(200+(len(address)*7919+n*131)%900) * time.Microsecond)
+						return nil, fmt.Errorf("dial tcp %s: connect: connection refused", address)
+					}
 					caps := []string{"8BITMIME", "ENHANCEDSTATUSCODES"}
 					var ss *saslServer
 					if authType != "" {
@@ -146,6 +153,9 @@ func init() {
 					return NewScriptConn(srv), nil
 				}
 				copts := []mail.Option{mail.WithTLSPolicy(mail.NoTLS), mail.WithDialContextFunc(dial), mail.WithTimeout(10 * time.Second)}
+				if fallback {
+					copts[0] = mail.WithTLSPortPolicy(mail.TLSOpportunistic)
+				}
 				if authType != "" {
 					copts = append(copts, mail.WithSMTPAuth(mail.SMTPAuthType(authType)), mail.WithUsername("verif-user"), mail.WithPassword("S3cr3t-Passw0rd!"))
 				}
@@ -160,7 +170,7 @@ func init() {
 					c.Note("config: %v", err)
 					continue
 				}
-				in := map[string]interface{}{"goroutines": n, "mode": []string{"Send on a shared connection", "DialAndSend per call", "Send on the shared connection and DialAndSend (some refused at end-of-data) at the same time"}[mode], "jitter": jitter, "auth": authType}
+				in := map[string]interface{}{"goroutines": n, "mode": []string{"Send on a shared connection", "DialAndSend per call", "Send on the shared connection and DialAndSend (some refused at end-of-data) at the same time"}[mode], "jitter": jitter, "auth": authType, "primary_port_unreachable": fallback}
 				msgs := make([]*mail.Msg, n)
 				for i := range msgs {
 					msgs[i] = c13Msg(i)
